@@ -489,10 +489,13 @@ fn check_main(
     let seed = sup::seed_from_env();
     println!("elfsim: property={} tier={} VERIF_SEED={} workers={}", prop, tier, seed, workers);
     let t0 = Instant::now();
-    let wall_cap = match tier {
-        "quick" => 240,
-        _ => 3600,
-    };
+    let wall_cap = std::env::var("ELFSIM_WALL_CAP_S")
+        .ok()
+        .and_then(|s| s.parse::<u64>().ok())
+        .unwrap_or(match tier {
+            "quick" => 240,
+            _ => 3600,
+        });
     let main_args = sup::CheckArgs {
         prop: prop.to_string(),
         tier: tier.to_string(),
